@@ -496,11 +496,24 @@ func JudgeCluster(sc *ClusterScenario, tr *Trace) ([]pbt.Violation, ClusterStats
 
 	// staleWrite: the root-cause fact of finding F15. A later-positioned instance (wait > 0) wrote a log entry for
 	// the key at w.At although another instance had delivered at `delivered`, inside that instance's wait window.
+	// frozenAt: the instant at which the writer of log write w had frozen its view of the group: the tick of the
+	// flush whose delivery ended at w.At (a delivery can be slow), else the write instant minus the cluster wait.
+	frozenAt := func(w LogWrite) time.Time {
+		wait := time.Duration(sc.Positions[w.Inst]) * pt
+		best := w.At.Add(-wait - time.Second)
+		for i := range tr.Attempts {
+			a := &tr.Attempts[i]
+			if a.Inst == w.Inst && a.GroupKey == w.GroupKey && a.Receiver == w.Receiver && a.Idx == w.Idx && a.Done.Equal(w.At) && a.Tick.Add(-time.Second).Before(best) {
+				best = a.Tick.Add(-time.Second)
+			}
+		}
+		return best
+	}
 	staleWrite := func(gk, receiver string, idx int, delivered time.Time) bool {
 		for _, w := range tr.LogWrites {
 			wait := time.Duration(sc.Positions[w.Inst]) * pt
 			if w.GroupKey == gk && w.Receiver == receiver && w.Idx == idx && wait > 0 &&
-				w.At.After(delivered) && delivered.After(w.At.Add(-wait-time.Second)) {
+				w.At.After(delivered) && delivered.After(frozenAt(w)) {
 				return true
 			}
 		}
@@ -717,7 +730,7 @@ func JudgeCluster(sc *ClusterScenario, tr *Trace) ([]pbt.Violation, ClusterStats
 					for _, w := range tr.LogWrites {
 						wait := time.Duration(sc.Positions[w.Inst]) * pt
 						if w.GroupKey == a.GroupKey && w.Receiver == a.Receiver && w.Idx == a.Idx && wait > 0 &&
-							w.At.After(prev.Done) && prev.Done.After(w.At.Add(-wait-time.Second)) &&
+							w.At.After(prev.Done) && prev.Done.After(frozenAt(w)) &&
 							(w.At.Before(a.T) || (w.At.Equal(a.T) && w.Inst != a.Inst && a.Entry != nil && a.Entry.Found && a.Entry.Timestamp.Equal(w.At))) {
 							// (a write at the very instant of the duplicate counts when the duplicate's dedup read saw it)
 							stale = true
